@@ -10,6 +10,7 @@
 -/
 import VsgModel.Prog.Eval
 import VsgModel.Prog.Check
+import VsgModel.Prog.NavCheck
 import VsgModel.Generated.ClassifyProg
 import VsgModel.Generated.ClassTree
 import VsgModel.Base.CaseTables
@@ -170,6 +171,14 @@ partial def progLoop (h out : IO.FS.Stream) (S : Sys := pySys) : IO Unit := do
     let bad := if names.isEmpty then [] else names.splitOn ";"
     out.putStrLn s!"masked {bad.length}"; out.flush
     progLoop h out (maskedSys bad)
+  | ["CHAINS"] =>
+    -- names of the functions recognised as chains (straight-line productions; lifting proved, C05 stage 2)
+    out.putStrLn (";".intercalate (chainNames Gen.Prog.progTable)); out.flush
+    progLoop h out S
+  | ["NAVFRAG"] =>
+    -- names of the largest closed set of navigation programs over the proved helpers (C05, partial lifting)
+    out.putStrLn (";".intercalate (navFragmentNames Gen.Prog.progTable)); out.flush
+    progLoop h out S
   | ["FAILING", chk] =>
     -- names of the functions of the generated table that do not pass the named checker
     match chkByName chk with
